@@ -1768,6 +1768,12 @@ class PCE500Emulator:
         if isinstance(irq_watch, dict):
             self.irq_bit_watch = irq_watch
         self._key_irq_latched = bool(interrupts.get("key_irq_latched", False))
+        # The KEYI-acknowledge detection compares an ISR write with the previous
+        # value; start from the restored registers rather than from "unknown".
+        self._last_imem_values = {
+            name: self.memory.read_byte(INTERNAL_MEMORY_START + reg) & 0xFF
+            for name, reg in (("IMR", IMEMRegisters.IMR), ("ISR", IMEMRegisters.ISR))
+        }
 
         kb_metrics = metadata.get("kb_metrics", {})
         self._kb_irq_count = int(kb_metrics.get("irq_count", 0))
